@@ -48,6 +48,7 @@ fn viol(ctx: &mut Ctx, kind: &str, sig: String, detail: String, index: usize, si
         family: "fd-e1".into(),
         index,
         schedule: vec![],
+        data: serde_json::Value::Null,
     });
 }
 
